@@ -218,6 +218,7 @@ void OrdinaryLeastSquares(matrix *x, dvector *y, dvector *coefficients)
   matrix *x_x_t; /* Z'*Z is the product between x and x_t */
   matrix *x_x_t_i; /* x_x_t_i inverted matrix  (Z' * Z')^-1 */
   dvector *x_t_y; /* Z'* y  = x->col */
+  size_t i, j;
 
   /* transpose x to x_t*/
   NewMatrix(&x_t, x->col, x->row);
@@ -237,9 +238,17 @@ void OrdinaryLeastSquares(matrix *x, dvector *y, dvector *coefficients)
   /* Z'y */
   MatrixDVectorDotProduct(x_t, y, x_t_y);
 
-  /* final data coefficient value */
+  /* final data coefficient value
+   * (Z'Z)^-1 and Z'y are computed quantities, not data: an entry that happens to
+   * lie next to the MISSING code (e.g. a sum of responses of 99999999) must not be
+   * skipped as MatrixDVectorDotProduct would do, so the product is formed here.
+   */
   DVectorResize(coefficients, x->col);
-  MatrixDVectorDotProduct(x_x_t_i, x_t_y, coefficients);
+  for(i = 0; i < x_x_t_i->row; i++){
+    for(j = 0; j < x_x_t_i->col; j++){
+      coefficients->data[i] += x_x_t_i->data[i][j]*x_t_y->data[j];
+    }
+  }
 
   DelDVector(&x_t_y);
   DelMatrix(&x_x_t_i);
